@@ -226,14 +226,15 @@ class BodyMixin:
                 dct = forms
             key = item.name
 
-            if key in post:
-                el = post[key]
-                if key not in listified:
-                    el = post[key] = dct[key] = [el]
-                    listified.add(key)
-                el.append(it)
-            else:
-                post[key] = dct[key] = it
+            # `post` holds fields and uploads together, `dct` only its own kind
+            for target in (post, dct):
+                if key in target:
+                    if (id(target), key) not in listified:
+                        target[key] = [target[key]]
+                        listified.add((id(target), key))
+                    target[key].append(it)
+                else:
+                    target[key] = it
         return post
 
     @cache_in('environ[ ombott.request.forms ]', read_only=True)
